@@ -45,6 +45,7 @@ RULE = ("a sequence = one allocation of 1..10 items (+ margins) of one of 13 ele
         "index read/write, slice read/write (right count, wrong count, failing item in the middle, bytes, cdata array "
         "sources incl. overlapping ones), + / - with ints, pointer - pointer, addressof(x, i), offsetof, len, casts to "
         "misaligned / differently typed pointers, applied to the array, to nested slice views and to derived pointers; "
+        "offsetof / addressof also on types with zero-sized items (int[][0]); "
         "indexes are in range, at the boundaries (-1, n, n+1), negative, huge (beyond 2^63, 2^64) or not ints; "
         "a case (= one operation) is non-trivial when it is rejected, touches a boundary, works through a derived view "
         "or writes; distinct = distinct (element kind, operation, arguments, outcome)")
@@ -52,12 +53,14 @@ ASSUMPTIONS = ["pointer arithmetic wraps modulo 2^64 (x86-64, gcc -O1)",
                "element values are converted by the oracle (struct.pack / int.to_bytes), see C03/C04"]
 
 CLASSES = {
-    "C16/offsetof-zero-size-item": lambda case: bool(case.get("zero_size_item")),
+    # x[i:j] with a bound beyond Py_ssize_t raises OverflowError where the property says IndexError
+    "C16/slice-bound-overflowerror": lambda case: bool(case.get("slice_bound_overflow")),
 }
 
 M64 = 1 << 64
 SS_MIN, SS_MAX = -(1 << 63), (1 << 63) - 1
 MODEL_BASE = 0x7f3a5c001000
+MODEL_ZBASE = 0x7f3a5d000000      # model address of the zero-sized-item array (provenance "z")
 ERRS = ("IndexError", "TypeError", "OverflowError", "ValueError", "RuntimeError")
 
 CDEF = "struct c16s { short a; char b[3]; }; struct c16e { int x[0]; };"
@@ -237,10 +240,14 @@ class Seq:
             prov, off = o_or_off.prov, o_or_off.off
         else:
             off = o_or_off
+        if prov == "z":
+            return (MODEL_ZBASE + off) % M64
         return off % M64 if prov == "abs" else (MODEL_BASE + off) % M64
 
     def rel(self, cd, prov):
         a = int(self.ffi.cast("uintptr_t", cd))
+        if prov == "z":
+            return (a - self.zbase) % M64
         return a if prov == "abs" else (a - self.base) % M64
 
     def inside(self, off, nbytes):
@@ -573,6 +580,25 @@ class Seq:
         cd = self.ffi.cast(ptr_type(self.ek), 0)
         return self._define(Obj(cd, "ptr", 0, None, 1, self.size, "abs"))
 
+    def op_zdefine(self, op):
+        """An array whose items have size 0 (`int[4][0]`): only addressof is applied to it."""
+        cd = self.ffi.new("int[4][0]")
+        self.zbase = int(self.ffi.cast("uintptr_t", cd))
+        return self._define(Obj(cd, "arr", 0, 4, 7, 0, "z"))
+
+    def op_zoffsetof(self, op):
+        """ffi.offsetof on array / pointer types with zero-sized items: i * 0 == 0, never an overflow."""
+        idx = op["i"]
+        ct = {"[]": "int[][0]", "[3]": "int[3][0]", "*": "int(*)[0]"}[op["form"]]
+        if idx[0] != "i" or not SS_MIN <= idx[1] <= SS_MAX:
+            orc = ("err", "TypeError")
+        else:
+            orc = ("ok", 0)
+        x = mkarg(idx)
+        r = self._exc(lambda: self.ffi.offsetof(ct, x))
+        want = "ok %d" % r[1] if r[0] == "ok" and isinstance(r[1], int) else "err %s" % (r[1],)
+        return r, orc, "offsetof 0 %s 1" % arg_line(idx), want, False
+
     def op_other(self, op):
         cd = self.ffi.cast("int", 3)
         return self._define(Obj(cd, "other", 0, None, 9, 4, "abs"))
@@ -632,8 +658,19 @@ def gen_op(rng, s):
     objs = s.objs
     size = s.size
     nobj = len(objs)
-    # prefer recently created objects (nested views)
-    oi = rng.randrange(nobj) if rng.random() < 0.5 else max(0, nobj - 1 - int(rng.expovariate(0.7)))
+    zs = [i for i, x in enumerate(objs) if x.prov == "z"]
+    if rng.random() < 0.04 and ZERO_OK:
+        # zero-sized items: ffi.offsetof / ffi.addressof with every kind of index
+        i = rng.choice([["i", rng.randint(-5, 12)], ["i", rng.randint(-5, 12)], ["i", 1], ["i", 1 << 62], ["i", -(1 << 63)],
+                        ["i", (1 << 63) - 1], ["i", 1 << 63], ["i", -(1 << 63) - 1], ["i", 1 << 64], ["n"], ["o", "float"]])
+        if rng.random() < 0.5:
+            return {"op": "zoffsetof", "form": rng.choice(["[]", "[3]", "*"]), "i": i}
+        if not zs:
+            return {"op": "zdefine"}
+        return {"op": "addrof", "o": rng.choice(zs), "i": i}
+    # prefer recently created objects (nested views); objects with zero-sized items only serve addressof
+    gen = [i for i, x in enumerate(objs) if x.prov != "z"]
+    oi = rng.choice(gen) if rng.random() < 0.5 else gen[max(0, len(gen) - 1 - int(rng.expovariate(0.7)))]
     o = objs[oi]
     r = rng.random()
 
@@ -767,7 +804,7 @@ def gen_op(rng, s):
             w = ["i", 1]
         return {"op": "add", "o": oi, "w": w, "sign": sign, "rev": sign == 1 and rng.random() < 0.3}
     if r < 0.86:
-        bi = rng.randrange(nobj)
+        bi = rng.choice(gen)
         if objs[bi].prov != o.prov and objs[bi].tid == o.tid:
             bi = oi               # the distance between two allocations is not part of the model
         return {"op": "sub", "a": oi, "b": bi}
@@ -817,7 +854,7 @@ def new_sequence(rng):
 
 def nontrivial_key(ek, op, real):
     t = op["op"]
-    if t in ("castoff", "retype", "voidp", "null", "other"):
+    if t in ("castoff", "retype", "voidp", "null", "other", "zdefine"):
         return None
     args = tuple((k, repr(v)) for k, v in sorted(op.items()) if k not in ("op",))
     if real[0] == "err" or t in ("set", "sset", "slice", "addrof", "sub") or op.get("o", 0) > 1:
@@ -855,7 +892,15 @@ def run_sequence(ctx, seq, nops, rng=None, collect=True):
         ctx.case(nontrivial_key(s.ek, op, real), sample=None)
         ctx.count("%s:%s" % (op["op"], "ok" if real[0] == "ok" else real[1]))
         ctx.count("kind:" + s.ek)
+        if op["op"] == "addrof" and s.objs[op["o"]].prov == "z":
+            ctx.count("addrof-zero-size-item:%s" % ("ok" if real[0] == "ok" else real[1]))
         robs = real if real[0] == "err" or not mutating else ("ok", None)
+        if (op["op"] in ("slice", "sset") and robs == ("err", "OverflowError") and orc == robs
+                and s.objs[op["o"]].k == "arr" and op["a"][0] == "i" and op["b"][0] == "i"
+                and any(f.get("class") == "C16/slice-bound-overflowerror" for f in getattr(ctx, "open_findings", ()))):
+            # literal statement of the property: IndexError.  Reported only under its registered class.
+            ctx.fail({"slice_bound_overflow": True, "ek": s.ek, "n": s.objs[op["o"]].n, "start": op["a"][1],
+                      "stop": op["b"][1]}, "x[i:j] with a bound beyond Py_ssize_t raises OverflowError, not IndexError")
         if robs != orc:
             ctx.fail(case_of(seq, k), "operation %d %r: implementation %r, the C model says %r" % (k - 1, op, robs, orc))
             failed = True
@@ -874,15 +919,17 @@ def run_sequence(ctx, seq, nops, rng=None, collect=True):
 
 
 def correspond(ctx, nseq=None, oracle_only=False):
-    nseq = nseq if nseq is not None else ctx.n(300, 10000)
+    nseq = nseq if nseq is not None else ctx.n(400, 20000)
     lines, expect = [], []
+    zero_size_canary(ctx)
     for _ in range(nseq):
         seq = new_sequence(ctx.rng)
         nops = ctx.rng.randint(8, 40)
         l, e, failed = run_sequence(ctx, seq, nops, ctx.rng, collect=not oracle_only)
         lines += l
         expect += e
-    zero_size_probe(ctx)
+        if ctx.failures:
+            break            # a broken implementation may be writing out of bounds: do not go on
     if oracle_only or not lines:
         return
     out = ctx.driver(lines)
@@ -901,44 +948,78 @@ def search(ctx):
     correspond(ctx, nseq=ctx.n(3000, 30000), oracle_only=True)
 
 
-# ------------------------------------------------------------------ known finding: zero-sized item types
+# ------------------------------------------------------------------ zero-sized items: canary in a child process
 
-ZERO_PROBE = r"""
+ZERO_CANARY = r"""
 import cffi
 ffi = cffi.FFI()
-print(ffi.offsetof("int[][0]", 1) == 1 * ffi.sizeof("int[0]"))
+x = ffi.new("int[4][0]")
+print(ffi.offsetof("int[][0]", 1), ffi.offsetof("int(*)[0]", -3), ffi.addressof(x, 2) == x + 2)
 """
+ZERO_OK = True        # cleared when the canary fails: the in-process zero-size operations are then skipped
 
 
-def zero_size_fails():
-    """True when ffi.offsetof('int[][0]', 1) does not return 0 (it dies with SIGFPE on the unchanged tree)."""
-    env = dict(os.environ)
-    r = subprocess.run([sys.executable, "-c", ZERO_PROBE], stdout=subprocess.PIPE, stderr=subprocess.PIPE,
-                       universal_newlines=True, timeout=120, env=env)
-    return not (r.returncode == 0 and r.stdout.strip().endswith("True"))
+def zero_size_canary_fails():
+    """direct_typeoffsetof once divided by the item size (SIGFPE for 'int[][0]').  The operations are exercised
+    in-process in every sequence; this child-process canary turns a crash regression into a failing input
+    instead of a dead harness."""
+    r = subprocess.run([sys.executable, "-c", ZERO_CANARY], stdout=subprocess.PIPE, stderr=subprocess.PIPE,
+                       universal_newlines=True, timeout=120, env=dict(os.environ))
+    return not (r.returncode == 0 and r.stdout.strip().endswith("0 0 True")), r.returncode
 
 
-def zero_size_probe(ctx):
-    # exercised only once the finding is registered, so that an unregistered crash class cannot alarm
-    if any(f.get("class") == "C16/offsetof-zero-size-item" for f in ctx.open_findings):
-        if zero_size_fails():
-            ctx.fail({"zero_size_item": True, "type": "int[][0]", "index": 1},
-                     "ffi.offsetof('int[][0]', 1) divides by the item size 0")
+def zero_size_canary(ctx):
+    global ZERO_OK
+    bad, rc = zero_size_canary_fails()
+    ZERO_OK = not bad
+    ctx.case(("zero-size-canary",), sample=None)
+    ctx.count("zero-size-canary:" + ("FAILS" if bad else "ok"))
+    if bad:
+        ctx.fail({"zero_size_canary": True, "call": "ffi.offsetof('int[][0]', 1)"},
+                 "ffi.offsetof / ffi.addressof on zero-sized items: child process exit code %d, expected offsets 0" % rc)
 
+
+# ------------------------------------------------------------------ known findings
 
 def check_witness(ctx, finding):
-    if finding.get("class") == "C16/offsetof-zero-size-item":
-        return zero_size_fails()
+    if finding.get("class") == "C16/slice-bound-overflowerror":
+        ffi = get_ffi()
+        try:
+            ffi.new("int[5]")[1:2 ** 70]
+        except IndexError:
+            return False
+        except OverflowError:
+            return True
+        return True
     return None
 
 
 def replay(ctx, obj):
     case = obj["case"]
-    if case.get("zero_size_item"):
-        bad = zero_size_fails()
-        print("ffi.offsetof('int[][0]', 1):", "fails" if bad else "returns 0")
+    if case.get("zero_size_canary"):
+        bad, rc = zero_size_canary_fails()
+        print("zero-sized items in a child process:", "FAILS (exit code %d)" % rc if bad else "offsets are 0")
         return 1 if bad else 0
+    if case.get("slice_bound_overflow"):
+        ffi = get_ffi()
+        try:
+            ffi.new("int[%d]" % max(1, case.get("n") or 1))[int(case["start"]):int(case["stop"])]
+            print("accepted")
+            return 1
+        except Exception as e:
+            print("x[%s:%s] raises %s" % (case["start"], case["stop"], type(e).__name__))
+            return 0 if isinstance(e, IndexError) else 1
     seq = case["seq"]
+
+    def unjson(x):          # common.jsonable writes ints beyond 2^62 as strings
+        if isinstance(x, list):
+            if len(x) == 2 and x[0] in ("i", "p") and isinstance(x[1], str):
+                return [x[0], int(x[1])]
+            return [unjson(y) for y in x]
+        if isinstance(x, dict):
+            return {k: unjson(v) for k, v in x.items()}
+        return x
+    seq = unjson(seq)
 
     class Quiet:
         samples = []
